@@ -481,38 +481,46 @@ def multi_name_exact_first(prog) -> List[str]:
 
 # ---------------------------------------------------------------------------------------------
 def _rows(ctx) -> None:
+    """Table.__getitem__ with a row key (slice / mask / index vector): every such result is `col[key]` mapped over ALL columns
+    with the SAME key - decided on the return events of the symx log (closures / helpers in line)."""
+    from ..sites2 import comp_parts
+    from ..symx import Interp as SInterp
+    from ..symx import flatten_conds, show, show_conds, subterms
     prog = ctx.prog
     f = prog.func("table.Table.__getitem__")
-    key = f.params[1]
+    it = SInterp(prog, f)
+    SELF = ("param", f.params[0])
+    keyp = ("param", f.params[1])
+    cols = (("attr", SELF, "_underlying"), ("call", ("attr", SELF, "cols"), (), ()))
     n = 0
-    for s in f.body:
-        if not isinstance(s, ast.If):
+    for e in it.events:
+        if e.kind != "return" or e.depth != 0:
             continue
-        t = short(s.test)
-        is_row_branch = (f"isinstance({key}, slice)" == t) or (("bool" in t or "int" in t) and (f"isinstance({key}, Vector)" in t or f"isinstance({key}, list)" in t))
-        if not is_row_branch:
+        t = e.term
+        if not (t[0] == "call" and t[1] in (("name", "Vector"), ("name", "Table")) and t[2]):
+            continue
+        cp = comp_parts(it, t[2][0])
+        if cp is None or len(cp[0]) != 1:
+            continue
+        (L,), extra, v, ev = cp
+        lp = it.loops[L]
+        # a per-column result: a comprehension over the table's columns (or elements computed from the key)
+        over_cols = lp.iter in cols
+        if not over_cols and not (v[0] == "sub" and any(x == keyp for x in subterms(v[2]))):
             continue
         n += 1
-        r = s.body[-1]
         problems = []
-        if not (isinstance(r, ast.Return) and isinstance(r.value, ast.Call) and short(r.value.func) in ("Vector", "Table") and r.value.args):
-            problems.append(f"row branch returns `{short(r, 60)}`")
-        else:
-            c = comp_of(r.value.args[0])
-            if c is None or len(c.generators) != 1:
-                problems.append("row selection is not a comprehension over the columns")
-            else:
-                g = c.generators[0]
-                if g.ifs:
-                    problems.append(f"columns are filtered by `{short(g.ifs[0])}`")
-                if short(g.iter) not in ("self._underlying", "self.cols()"):
-                    problems.append(f"the selection ranges over `{short(g.iter)}`, not over all columns in order")
-                if not (isinstance(c.elt, ast.Subscript) and isinstance(c.elt.value, ast.Name) and isinstance(g.target, ast.Name)
-                        and c.elt.value.id == g.target.id and short(c.elt.slice) == key):
-                    problems.append(f"each column is selected by `{short(c.elt)}`, not by the same key `{g.target.id if isinstance(g.target, ast.Name) else '?'}[{key}]`")
-        ctx.ob("e.uniform-rows", f, f"rows:{t[:40]}", not problems, "same key mapped over all columns", s, message="; ".join(problems))
-    if n < 4:
-        raise AnalysisError(f"Table.__getitem__: expected 4 row-selection branches, found {n}")
+        KEYS = (keyp, ("call", ("attr", SELF, "_check_duplicate"), (keyp,), ()))
+        if extra:
+            problems.append(f"columns are filtered by `{show_conds(extra, it)[:50]}`")
+        if not over_cols:
+            problems.append(f"the selection ranges over `{show(lp.iter, it)[:50]}`, not over all columns in order")
+        if not (v[0] == "sub" and v[1] == ("elem", lp.iter, L) and v[2] in KEYS):
+            problems.append(f"each column is selected by `{show(v, it)[:60]}`, not by the caller's key itself on the column (`col[key]`: "
+                            f"the column's own indexing decides slices, masks and index lists)")
+        ctx.ob("e.uniform-rows", f, f"rows:{n}", not problems, "same key mapped over all columns", e.node, message="; ".join(problems))
+    if n < 2:
+        raise AnalysisError(f"Table.__getitem__: expected row-selection results (col[key] over all columns), found {n}")
 
 
 _V, _T = "vector", "table"
